@@ -133,7 +133,7 @@ def sub_entry(rng, pool=None):
 
 def _fresh_sub(rng):
     svc = rng.choice(["s1", "s1", "s1", "s2", "s3", "s4"])
-    eps = rng.choice([["e1"], ["e1"], ["e2"], ["e3"], ["e1", "e2"], []])
+    eps = rng.choice([["e1"], ["e1"], ["e2"], ["e3"], ["e1", "e2"], [], ["e4"], ["e1", "e4"]])      # e4: a TCP endpoint
     return {"ty": "sub", "svc": svc, "eg": rng.choice([1, 1, 2, 3]), "ctr": rng.choice([0, 0, 1, 7, 15]),
             "eps": sorted(eps), "ttl": rng.choice([0, 1, 2, 3, 3, 16777215]), "opts": rng.choice([[], [], ["x1"]]),
             "acc": rng.random() < 0.7}
